@@ -29,6 +29,19 @@ CHECKS = {
                 text="Store-level model with every reshuffle and every top set; in the traces the points written by each real refinement step must be candidates reported by hook H1 with "
                      "the highest independently recomputed residual (top pairs for product domains), written only into the inactive window, with every active point surviving every draw, reshuffle and step.",
                 note="candidates come from the guarded hook H1; crafted residual landscapes; near-ties tolerated; PRNG sampled", ref="3.3 C17"),
+    "C07": dict(cat="model_checking", tech="TLC model checking of Solve.tla + replay of TLC-emitted scenarios and driver families into jinns.solve, validated by Trace_Solve.tla (tagged arithmetic)",
+                text="The loop (probe draw, draw, gradient step, validation, RAR, store, guard) is model-checked for all n<=6; scenarios and driver families (epoch wrap, batch sizes dividing or not, "
+                     "parameter/observation generators, tracked specs, sgd/adam/chained optimizers, resumed runs) run through the real solve with every history entry decoding to (parameter version, batch ids); "
+                     "Trace_Solve recomputes the expected result with the model's own operators and compares every entry, the returned parameters, optimizer state and generator.",
+                note="tagged arithmetic under x64 (exact integers); for sgd/adam/chain only loop structure is compared; n_iter=0 with tracking/validation/aux generators is degenerate (cannot be traced) and not claimed", ref="3.4 C07"),
+    "C18": dict(cat="fault_enumeration", tech="TLC enumeration of the fault space on Solve.tla + replay into jinns.solve with real NaN injectors, validated by Trace_Solve.tla",
+                text="Every fault position x origin (loss value, gradient of a network leaf, gradient of an equation parameter, optimizer update) x validation kind is enumerated by TLC; a stratified selection of the "
+                     "emitted scenarios is realised with real injectors (NaN residual, custom_vjp poisoning one leaf, NaN optimizer update) and the returned parameters, histories and untouched entries are decoded exactly.",
+                note="tagged arithmetic under x64; per-leaf NaN pattern of each origin is part of the specification", ref="3.4 C18"),
+    "C19": dict(cat="model_checking", tech="TLC model checking of Solve.tla/SolveOps (ValidationLoss state machine) + replay of TLC-emitted validation scripts into jinns.solve, validated by Trace_Solve.tla",
+                text="All validation outcome scripts (user module: improve/stop per call; built-in ValidationLoss: loss values, patience 0..2, early stopping on/off), periods and iteration counts are model-checked; "
+                     "scenarios are replayed with a scripted AbstractValidationModule or the real ValidationLoss with its own (mini-batched) generators; criterion history, stop iteration and best parameters decode exactly.",
+                note="tagged arithmetic under x64; ValidationLoss criterion = rank^2*4^12 + batch tags so that stale validation generators are visible", ref="3.4 C19"),
 }
 NA = {}
 
